@@ -24,3 +24,121 @@ pub fn verif_elect(this_name: &str, peer_name: &str, cands: &[(u64, bool, u64)])
     }
     out
 }
+
+// ---------------------------------------------------------------------------------------------------------------------
+// Probes for the handshake state machines of `node::auth` (pub(crate) there). States and messages travel as plain data:
+// the state by the *name* of its variant plus its payload, the message by the name of its oneof variant plus its fields.
+
+fn verif_name_message() -> crate::protocol::auth::NameMessage {
+    crate::protocol::auth::NameMessage {
+        name: "verif-peer".to_string(),
+        flags: Some(crate::protocol::auth::NodeFlags { version: 1 }),
+        connection_string: "verif-peer:1".to_string(),
+        connection_id: 7,
+    }
+}
+
+/// Build an `AuthenticationMessage`: `kind` is "None" or the name of the oneof variant.
+pub fn verif_auth_msg(kind: &str, val: u32, flag: bool, digest: &[u8]) -> crate::protocol::auth::AuthenticationMessage {
+    use crate::protocol::auth as proto;
+    use crate::protocol::auth::authentication_message::Msg;
+    let msg = match kind {
+        "None" => None,
+        "Name" => Some(Msg::Name(verif_name_message())),
+        "ServerStatus" => Some(Msg::ServerStatus(proto::ServerStatus { status: val as i32 })),
+        "ClientStatus" => Some(Msg::ClientStatus(proto::ClientStatus { status: flag })),
+        "ServerChallenge" => Some(Msg::ServerChallenge(proto::Challenge {
+            name: "verif-peer".to_string(),
+            flags: Some(proto::NodeFlags { version: 1 }),
+            challenge: val,
+            connection_string: "verif-peer:1".to_string(),
+        })),
+        "ClientChallenge" => Some(Msg::ClientChallenge(proto::ChallengeReply { challenge: val, digest: digest.to_vec() })),
+        "ServerAck" => Some(Msg::ServerAck(proto::ChallengeAck { digest: digest.to_vec() })),
+        other => panic!("verif_auth_msg: unknown kind {other}"),
+    };
+    proto::AuthenticationMessage { msg }
+}
+
+pub(crate) fn verif_server_state(state: &str, a: u32, d1: [u8; 32]) -> auth::ServerAuthenticationProcess {
+    use auth::ServerAuthenticationProcess as S;
+    match state {
+        "WaitingOnPeerName" => S::WaitingOnPeerName,
+        "HavePeerName" => S::HavePeerName(verif_name_message()),
+        "WaitingOnClientStatus" => S::WaitingOnClientStatus,
+        "WaitingOnClientChallengeReply" => S::WaitingOnClientChallengeReply(a, d1),
+        "Ok" => S::Ok(d1),
+        "Close" => S::Close,
+        other => panic!("verif_server_state: unknown state {other}"),
+    }
+}
+
+pub(crate) fn verif_server_state_out(s: &auth::ServerAuthenticationProcess) -> (String, u32, [u8; 32]) {
+    use auth::ServerAuthenticationProcess as S;
+    match s {
+        S::WaitingOnPeerName => ("WaitingOnPeerName".to_string(), 0, [0; 32]),
+        S::HavePeerName(_) => ("HavePeerName".to_string(), 0, [0; 32]),
+        S::WaitingOnClientStatus => ("WaitingOnClientStatus".to_string(), 0, [0; 32]),
+        S::WaitingOnClientChallengeReply(c, d) => ("WaitingOnClientChallengeReply".to_string(), *c, *d),
+        S::Ok(d) => ("Ok".to_string(), 0, *d),
+        S::Close => ("Close".to_string(), 0, [0; 32]),
+    }
+}
+
+pub(crate) fn verif_client_state(state: &str, a: u32, b: u32, d1: [u8; 32], d2: [u8; 32]) -> auth::ClientAuthenticationProcess {
+    use auth::ClientAuthenticationProcess as C;
+    use crate::protocol::auth as proto;
+    match state {
+        "WaitingForServerStatus" => C::WaitingForServerStatus,
+        "WaitingForServerChallenge" => C::WaitingForServerChallenge(proto::ServerStatus { status: a as i32 }),
+        "WaitingForServerChallengeAck" => C::WaitingForServerChallengeAck(
+            proto::Challenge {
+                name: "verif-peer".to_string(),
+                flags: Some(proto::NodeFlags { version: 1 }),
+                challenge: a,
+                connection_string: "verif-peer:1".to_string(),
+            },
+            d1,
+            b,
+            d2,
+        ),
+        "Ok" => C::Ok,
+        "Close" => C::Close,
+        other => panic!("verif_client_state: unknown state {other}"),
+    }
+}
+
+pub(crate) fn verif_client_state_out(s: &auth::ClientAuthenticationProcess) -> (String, u32, [u8; 32]) {
+    use auth::ClientAuthenticationProcess as C;
+    match s {
+        C::WaitingForServerStatus => ("WaitingForServerStatus".to_string(), 0, [0; 32]),
+        C::WaitingForServerChallenge(_) => ("WaitingForServerChallenge".to_string(), 0, [0; 32]),
+        C::WaitingForServerChallengeAck(_, _, c, d) => ("WaitingForServerChallengeAck".to_string(), *c, *d),
+        C::Ok => ("Ok".to_string(), 0, [0; 32]),
+        C::Close => ("Close".to_string(), 0, [0; 32]),
+    }
+}
+
+/// One step of the server machine; returns (next state name, stored challenge, stored / reply digest).
+#[allow(clippy::too_many_arguments)]
+pub fn verif_server_next(state: &str, a: u32, d1: [u8; 32], kind: &str, val: u32, flag: bool, digest: &[u8], cookie: &str) -> (String, u32, [u8; 32]) {
+    let s = verif_server_state(state, a, d1);
+    verif_server_state_out(&s.next(verif_auth_msg(kind, val, flag, digest), cookie))
+}
+
+/// `start_challenge` from the given state.
+pub fn verif_server_start_challenge(state: &str, a: u32, d1: [u8; 32], cookie: &str) -> (String, u32, [u8; 32]) {
+    verif_server_state_out(&verif_server_state(state, a, d1).start_challenge(cookie))
+}
+
+/// One step of the client machine; returns (next state name, our challenge, expected digest).
+#[allow(clippy::too_many_arguments)]
+pub fn verif_client_next(state: &str, a: u32, b: u32, d1: [u8; 32], d2: [u8; 32], kind: &str, val: u32, flag: bool, digest: &[u8], cookie: &str) -> (String, u32, [u8; 32]) {
+    let s = verif_client_state(state, a, b, d1, d2);
+    verif_client_state_out(&s.next(verif_auth_msg(kind, val, flag, digest), cookie))
+}
+
+/// `hash::challenge_digest`
+pub fn verif_digest(cookie: &str, challenge: u32) -> [u8; 32] {
+    crate::hash::challenge_digest(cookie, challenge)
+}
